@@ -243,6 +243,9 @@ def judge_beam(st: State, ev):
     }
     near_par = bool(np.ravel(o['near_parallel'])[i])
     case['worst_ray']['angle_to_axis_direction'] = repr(float(np.ravel(o['tilt'])[i]))
+    case['failing_rays_angle_to_axis'] = [repr(float(x)) for x in np.ravel(o['tilt'])[badi][:8]]
+    case['failing_rays_got_expected'] = [[repr(float(np.ravel(got)[k])), repr(float(np.ravel(L)[k]))]
+                                         for k in badi[:8]]
     ctx.violation(kind, f'beam_intersection [{tag}]: got {gi!r}, ray inside the solid over {Li!r} '
                         f'({badi.size}/{got.size} rays outside the accepted interval)', case,
                   origin=tag, sign=sign, start_inside=start_inside, near_parallel=near_par,
